@@ -86,6 +86,11 @@ CHECKS = {
    note='Merge assumes parser state lives only in frame locals (the module has no other state); for reads > 16 bytes in bounded mode only sizes {1..4, n/2, n-4..n-1} are tried; spellings Python accepts but the spec forbids (leading zeros, +, _) are don\'t-care.',
    technique='exhaustive input enumeration (boundaries, corruptions, truncations, garbage) x exhaustive short-read exploration on the real parser against a reference parser',
    design='5/C18'),
+ 'C19': dict(level='model_checking', engine='E1-vloop',
+   text='Layer A: the real RelayPool + BlockingDeque + RelayPoolClient.poll with a harness client following the documented pattern whose per-request behaviour is an explorer choice {deliver, fail, deliver-then-die, requeue-and-exit} and takes time; 2-3 (4) callers x pool_size {1,2,3,None} x idle_timeout {None,5}; all interleavings of attempt() calls, client start-up, polling, completions and idle expiry (virtual timer, incl. equal times) with <= d deviations, quiescent states merged.  Layer B: the real StaticSmtpRelay/SmtpRelayClient with 2-3 concurrent attempts against auto-answering scripted peers with explorer-placed faults (connection refused, 4xx/5xx on MAIL, unsolicited 421 between messages, delayed reply), pool_size {1,2}, idle_timeout {None,5}.  Monitors after every loop step and at quiescence: live clients/connections <= pool_size, len(deque) == semaphore counter, every attempt gets the result of its own envelope (peer tags replies), nothing stranded, no caller blocked, no MAIL inside a transaction or after a failed one without RSET.',
+   note='A client that dies without setting or re-queueing its request is a client bug and is not generated; wait_read() in slimta.smtp.client is rebound to in-memory socket readiness.',
+   technique='stateless deviation-bounded model checking of the real pool and relay clients on a virtual event loop with invariants checked after every step',
+   design='5/C19'),
  'C20': dict(level='exploration', engine='pure-enumeration',
    text='Exhaustive within bounds: 1690 header blocks (1..3 fields, 5 value kinds incl. folded, 8-bit, 78-byte lines) x CRLF/LF x every body over {NUL,CR,LF,.,a,0xFF} up to length 2-5, plus "Name:value" forms; every byte string over {a,:,SP,CR,LF,0xFF} up to 6/7 bytes and sequences of long tokens for the never-raises claim; UTF-8 texts over {e-acute,a,CRLF} x 4 header sets x {base64, quoted-printable, none} for 7-bit conversion.  Oracle: independent header reader, byte-exact body, copy/pickle round trips, parse(flatten()) fixed point, stdlib parser as independent decoder.',
    note='7-bit "same text" is judged modulo line-end convention; control characters that split header lines are outside the quantifier.',
